@@ -4,6 +4,7 @@ import (
 	"encoding/json"
 	"flag"
 	"fmt"
+	"go/types"
 	"os"
 	"path/filepath"
 	"regexp"
@@ -37,6 +38,8 @@ func main() {
 		os.Exit(cmdList(os.Args[2:]))
 	case "ext":
 		os.Exit(cmdExt(os.Args[2:]))
+	case "impls":
+		os.Exit(cmdImpls(os.Args[2:]))
 	case "replay":
 		os.Exit(cmdReplay(os.Args[2:]))
 	case "selftest":
@@ -726,6 +729,34 @@ func cmdExt(args []string) int {
 	sort.Strings(ks)
 	for _, k := range ks {
 		fmt.Printf("%4d %s\n", cnt[k], k)
+	}
+	return 0
+}
+
+// cmdImpls lists the synthesised/explicit contracts of interface implementers and whether size/wf specs exist.
+func cmdImpls(args []string) int {
+	L := load("/repo")
+	seen := map[string]bool{}
+	for _, fc := range L.Contracts.Order {
+		if len(fc.Inherited) == 0 {
+			continue
+		}
+		recv := fc.Fn.Params[0].Type()
+		k := typeStr(recv)
+		if seen[k] {
+			continue
+		}
+		seen[k] = true
+		has := func(name string) string {
+			for _, sf := range L.Contracts.Specs[name] {
+				if types.Identical(sf.PTypes[0], recv) {
+					return name
+				}
+			}
+			return "-"
+		}
+		pos := L.Fset.Position(fc.Fn.Pos())
+		fmt.Printf("%-45s %-5s %-3s %s:%d\n", k, has("size"), has("wf"), shortFile(pos.Filename), pos.Line)
 	}
 	return 0
 }
